@@ -295,6 +295,11 @@ class C11:
                     args['bogus'] = 'no_such_parameter'
                 if rng.random() < 0.1:
                     args['name_from'] = rng.randrange(24)
+                if k > 1 and rng.random() < 0.12:
+                    # a name listed twice among the parameters to tie
+                    args['idx'] = idx + [idx[rng.randrange(k)]]
+                    rng.shuffle(args['idx'])
+                    args['repeat'] = True
                 b.emit('add_tie', args, tags={'k': 'tie', 'tie': True})
             elif c < 0.7:
                 b.emit('mutate_returned', {
